@@ -6,6 +6,8 @@
   generated non-negative overshoot** (real loops wake late, never early).  When nothing is ready and no timer
   exists the loop raises ``SimDeadlock``; after ``max_iter`` iterations it raises ``SimLivelock``.
   asyncio's FIFO order of ready callbacks is untouched.  No file descriptors, no threads, no real time.
+  ``eager=True`` gives tasks ``asyncio.eager_task_factory`` semantics (mitmproxy's ``Master.run`` installs it; code
+  driven outside ``Master.run``, e.g. by the repository's tests, runs with the default lazy task start).
 * ``FakeReader`` / ``FakeWriter``: stream objects with the interface mitmproxy's ``ConnectionHandler`` uses
   (``read``, ``write``, ``drain``, ``write_eof``, ``close``, ``is_closing``, ``get_extra_info``).  Data, EOF
   and errors arrive at virtual instants scheduled from a JSON-able script; ``drain``/``write_eof``/``close``
@@ -55,8 +57,9 @@ class _Selector:
 
 
 class SimLoop(asyncio.BaseEventLoop):
-    def __init__(self, overshoots=(), tick=TICK, start=T0, max_iter=200_000):
+    def __init__(self, overshoots=(), tick=TICK, start=T0, max_iter=200_000, eager=False):
         super().__init__()
+        self.eager = bool(eager)  # asyncio.eager_task_factory semantics (what mitmproxy's Master.run installs)
         self._vt = float(start)
         self._tick = float(tick)
         self._overshoots = [float(x) for x in overshoots]
@@ -109,7 +112,10 @@ class SimLoop(asyncio.BaseEventLoop):
 
     @staticmethod
     def _factory(loop, coro, **kw):
-        t = asyncio.Task(coro, loop=loop, **kw)
+        if loop.eager:
+            t = asyncio.Task(coro, loop=loop, eager_start=True, **kw)
+        else:
+            t = asyncio.Task(coro, loop=loop, **kw)
         loop.tasks.append(t)
         return t
 
@@ -406,6 +412,9 @@ class Net:
         elif kind == "hang":
             outcome = "hang"
         try:
+            # the real asyncio.open_connection never completes without suspending at least once
+            # (connection_made is delivered through call_soon), so neither does the fake
+            await asyncio.sleep(0)
             if outcome == "hang":
                 await self.loop.create_future()
             delay = spec.get("delay", 0)
@@ -460,10 +469,10 @@ def _drain(loop, rounds=50):
         pass
 
 
-def run(main_factory, overshoots=(), tick=TICK, max_iter=200_000, setup=None):
+def run(main_factory, overshoots=(), tick=TICK, max_iter=200_000, setup=None, eager=False):
     """Run ``await main_factory(loop)`` on a fresh SimLoop.  ``setup(loop)`` may return a context manager that is
     entered for the duration (e.g. ``patched``).  Always closes the loop; cancels whatever is left."""
-    loop = SimLoop(overshoots=overshoots, tick=tick, max_iter=max_iter)
+    loop = SimLoop(overshoots=overshoots, tick=tick, max_iter=max_iter, eager=eager)
     out = Outcome()
     out.loop = loop
     cm = setup(loop) if setup is not None else contextlib.nullcontext()
